@@ -146,7 +146,12 @@ mod builtins {
     #[cfg_attr(docsrs, doc(cfg(feature = "builtins")))]
     pub fn is_divisibleby(v: &Value, other: &Value) -> bool {
         match coerce(v, other, false) {
-            Some(CoerceResult::I128(a, b)) => (a % b) == 0,
+            // a zero divisor divides nothing; `i128::MIN % -1` overflows but
+            // -1 divides everything.
+            Some(CoerceResult::I128(a, b)) => match a.checked_rem(b) {
+                Some(rem) => rem == 0,
+                None => b != 0,
+            },
             Some(CoerceResult::F64(a, b)) => (a % b) == 0.0,
             _ => false,
         }
